@@ -166,7 +166,7 @@ func TestVertexRule(t *testing.T) {
 		desc := ""
 		var sphereR float64
 		var sphereC v3.Vec
-		S := rapid.SampledFrom([]float64{1, 10, 100}).Draw(t, "scale")
+		S := rapid.SampledFrom([]float64{1, 10, 100, 1e-7, 1e-4, 1e4}).Draw(t, "scale")
 		switch kind {
 		case "plane":
 			n := v3.Vec{X: g.Coord(t, "nx", 1), Y: g.Coord(t, "ny", 1), Z: g.Coord(t, "nz", 1)}
@@ -233,26 +233,32 @@ func TestVertexRule(t *testing.T) {
 				worst = math.Max(worst, fv)
 				switch kind {
 				case "plane":
-					if fv > 1e-9*sm.scale {
+					if fv > 1e-9*sm.scale+snapEps {
 						rec.Violation(t, "MarchingCubes:"+r.name+":plane-vertex-off-plane", "%s, %d cells: |f(v)| = %v at vertex %v", desc, cells, fv, v)
 					}
 				case "sphere":
 					if sphereR > 2*sm.h {
-						if bound := sm.h*sm.h/(8*(sphereR-sm.h)) + 1e-9*sm.scale; fv > bound {
+						if bound := sm.h*sm.h/(8*(sphereR-sm.h)) + 1e-9*sm.scale + snapEps; fv > bound {
 							rec.Violation(t, "MarchingCubes:"+r.name+":sphere-vertex-bound", "%s, %d cells (h=%v): |f(v)| = %v > h^2/(8(R-h)) = %v at %v", desc, cells, sm.h, fv, bound, v)
 						}
 					}
 				}
-				if fv > sm.h*(1+1e-9)+1e-9*sm.scale {
+				if fv > sm.h*(1+1e-9)+1e-9*sm.scale+snapEps {
 					rec.Violation(t, "MarchingCubes:"+r.name+":vertex-farther-than-one-cell", "[%s] %s, %d cells (h=%v): |f(v)| = %v at vertex %v", kind, desc, cells, sm.h, fv, v)
 				}
 			}
 		}
 		rec.Add("vertices-checked", int64(len(seen)))
-		rec.Case(len(sm.tris) >= 20, ev.Key(r.name, kind, desc, cells), "vertex:"+kind, "vertex:"+r.name)
+		rec.Case(len(sm.tris) >= 20, ev.Key(r.name, kind, desc, cells), "vertex:"+kind, "vertex:"+r.name, fmt.Sprintf("vertex:unit=%g", S))
 		rec.Sample("vertex:"+kind, map[string]any{"renderer": r.name, "kind": kind, "scene": desc, "cells": cells, "h": sm.h, "triangles": len(sm.tris), "vertices": len(seen), "worst_abs_f": worst})
 	})
 }
+
+// snapEps: mcInterpolate (render/march3.go:239) puts the vertex ON a lattice
+// corner whose value is within 1e-12 (absolute) of the level; such a vertex is
+// the zero crossing "to rounding" of that constant. It only matters for models
+// in very small units (it is 1e-12 against 1e-9*scale otherwise).
+const snapEps = 1.001e-12
 
 // analytic shapes for the two-sided distance / normal checks
 type analytic struct {
@@ -385,7 +391,7 @@ func TestMeshNearSurface(t *testing.T) {
 	rec := ev.Get()
 	rapid.Check(t, func(t *rapid.T) {
 		r := rapid.SampledFrom(renderers).Draw(t, "renderer")
-		S := rapid.SampledFrom([]float64{1, 10}).Draw(t, "scale")
+		S := rapid.SampledFrom([]float64{1, 10, 1e-7, 1e-4, 1e4}).Draw(t, "scale")
 		a, ok := drawAnalytic(t, S)
 		if !ok {
 			rec.Count("discarded:constructor-rejected", 1)
@@ -467,7 +473,7 @@ func TestMeshNearSurface(t *testing.T) {
 		}
 		rec.Add("surface-points", int64(nsurf))
 		rec.Add("normals-checked", int64(checkedNormals))
-		rec.Case(len(ts) >= 20 && nsurf > 0, ev.Key(r.name, a.desc, cells), "near:"+a.kind, "near:"+r.name)
+		rec.Case(len(ts) >= 20 && nsurf > 0, ev.Key(r.name, a.desc, cells), "near:"+a.kind, "near:"+r.name, fmt.Sprintf("near:unit=%g", S))
 		rec.Sample("near:"+a.kind, map[string]any{"renderer": r.name, "shape": a.desc, "cells": cells, "triangles": len(ts), "surface_points": nsurf})
 	})
 }
@@ -486,8 +492,10 @@ func TestVolumeConvergence(t *testing.T) {
 	rec := ev.Get()
 	rapid.Check(t, func(t *rapid.T) {
 		r := rapid.SampledFrom(renderers).Draw(t, "renderer")
-		R := g.Length(t, "R", 0.1, 100)
-		c := v3.Vec{X: g.Coord(t, "cx", 10), Y: g.Coord(t, "cy", 10), Z: g.Coord(t, "cz", 10)}
+		// the unit of length is the caller's: the same sphere in units of 1e-7 .. 1e4
+		K := rapid.SampledFrom([]float64{1, 1, 1e-7, 1e-4, 1e4}).Draw(t, "unit")
+		R := K * g.Length(t, "R", 0.1, 100)
+		c := v3.Vec{X: g.Coord(t, "cx", 10*K), Y: g.Coord(t, "cy", 10*K), Z: g.Coord(t, "cz", 10*K)}
 		sp, _ := sdf.Sphere3D(R)
 		s := sdf.Transform3D(sp, sdf.Translate3d(c))
 		n0 := rapid.IntRange(10, ev.Pick(20, 32)).Draw(t, "n0")
@@ -506,7 +514,7 @@ func TestVolumeConvergence(t *testing.T) {
 		if errs[0] > 1e-6 && errs[1] > 0.4*errs[0] {
 			rec.Violation(t, "MarchingCubes:"+r.name+":volume-not-second-order", "sphere R=%v at %v: relative volume errors %v at %d/%d cells: the finer error is not <= 0.4x the coarser", R, c, errs, n0, 2*n0)
 		}
-		rec.Case(true, ev.Key(r.name, R, c, n0), "volume:"+r.name)
+		rec.Case(true, ev.Key(r.name, R, c, n0), "volume:"+r.name, fmt.Sprintf("volume:unit=%g", K))
 		rec.Sample("volume:"+r.name, map[string]any{"renderer": r.name, "R": R, "centre": c, "cells": []int{n0, 2 * n0}, "relative_volume_error": errs, "h_over_R_squared": []float64{(h0 / R) * (h0 / R), (h0 / R) * (h0 / R) / 4}})
 	})
 }
